@@ -62,6 +62,23 @@ pub enum WKind {
     Fmt,
     /// text split in two halves passed as two format arguments
     Fmt2,
+    /// every character as a `char` format argument of `uwrite!` (goes through `uWrite::write_char`)
+    UfmtCh,
+    /// every character as a `char` format argument of `write!` (goes through `fmt::Write::write_char`)
+    FmtCh,
+    /// `write!(w, "{:*<6}", text)`: padding is emitted character by character
+    FmtPad,
+    /// `write!(w, "{:?}", text)`: quotes and escapes are emitted character by character
+    FmtDbg,
+    /// `write_char` of both traits called directly, alternating
+    Ch,
+}
+
+impl WKind {
+    /// written through `core::fmt::Write`, where the sink's error value cannot be seen by the application
+    pub fn is_core_fmt(&self) -> bool {
+        matches!(self, WKind::Fmt | WKind::Fmt2 | WKind::FmtCh | WKind::FmtPad | WKind::FmtDbg | WKind::Ch)
+    }
 }
 
 #[derive(Clone, Debug, PartialEq, Eq)]
@@ -75,6 +92,8 @@ impl WCall {
     pub fn logical(&self) -> String {
         match self.kind {
             WKind::Ln => format!("{}\n", self.text),
+            WKind::FmtPad => format!("{:*<6}", self.text),
+            WKind::FmtDbg => format!("{:?}", self.text),
             _ => self.text.clone(),
         }
     }
@@ -116,6 +135,37 @@ pub fn do_writes(
             WKind::Fmt => {
                 if write!(w, "{}", c.text).is_err() {
                     return Err(SinkErr(usize::MAX - 1));
+                }
+            }
+            WKind::UfmtCh => {
+                for ch in c.text.chars() {
+                    ufmt::uwrite!(w, "{}", ch)?;
+                }
+            }
+            WKind::FmtCh => {
+                for ch in c.text.chars() {
+                    if write!(w, "{}", ch).is_err() {
+                        return Err(SinkErr(usize::MAX - 1));
+                    }
+                }
+            }
+            WKind::FmtPad => {
+                if write!(w, "{:*<6}", c.text).is_err() {
+                    return Err(SinkErr(usize::MAX - 1));
+                }
+            }
+            WKind::FmtDbg => {
+                if write!(w, "{:?}", c.text).is_err() {
+                    return Err(SinkErr(usize::MAX - 1));
+                }
+            }
+            WKind::Ch => {
+                for (i, ch) in c.text.chars().enumerate() {
+                    if i % 2 == 0 {
+                        ufmt::uWrite::write_char(w, ch)?;
+                    } else if core::fmt::Write::write_char(w, ch).is_err() {
+                        return Err(SinkErr(usize::MAX - 1));
+                    }
                 }
             }
             WKind::Fmt2 => {
